@@ -111,6 +111,8 @@ func coqAction(a string) string {
 		return "AIgnore"
 	case "err":
 		return "AErr"
+	case "quiet":
+		return "AQuiet"
 	}
 	return "ANil"
 }
@@ -119,6 +121,18 @@ func coqAction(a string) string {
 
 func runEnabled(inp *input) core.Result {
 	var res core.Result
+	// a Go map has distinct keys: keep the first entry of a repeated key
+	{
+		seenK := map[string]bool{}
+		var ded []bkv
+		for _, t := range inp.Tags {
+			if !seenK[string(t.K)] {
+				seenK[string(t.K)] = true
+				ded = append(ded, t)
+			}
+		}
+		inp.Tags = ded
+	}
 	g := &recGen{name: string(inp.G)}
 	seen := map[bool]bool{}
 	panicked := false
@@ -487,6 +501,13 @@ func runModule(inp *input, scratch string) core.Result {
 	}
 	if len(loaded) > 1 {
 		feat["several_packages"] = true
+	}
+	// labels of the (repaired) finding classes the input falls in; they only group failing cases in reports
+	switch {
+	case feat["local_type"] || feat["blank_type"] || feat["shadowing"]:
+		res.Class = "non_package_scope_type_names"
+	case feat["nested_defers"]:
+		res.Class = "defer_registered_by_defer"
 	}
 	res.Tags = []string{"kind=module", fmt.Sprintf("module:calls=%d", min(ncalls, 8))}
 	for f := range feat {
